@@ -319,6 +319,8 @@ def _run(chk: Check, tier: str, P: dict, rnd, work, pool, t_start):
             ("success,panic(unsat_rc1)", "refinable", None, None),
             ("success,stuck(timeout)", "refinable", None, None),
             ("success,panic(sat_abstract>timeout)", "refinable", None, None),
+            # the solver cannot even be started (the solving thread ends in an exception): ERROR, never PASS
+            ("success,panic(spawnfail)", "refinable", None, None),
         ],
     }
     all_recs: dict = {}
